@@ -496,9 +496,97 @@ def run_native_bounded(job, tier):
     return res
 
 
+def _purity_scan(unit_name, real='long double'):
+    """clang AST of the instantiation unit with T replaced by `real`: every node inside a hep:: function whose type still mentions
+    plain `double` is a place where the computation leaves the numeric type T (literals that are immediately cast are exempt)."""
+    import subprocess
+    import native as NAT
+    src = open(os.path.join(ROOT, 'vp', 'inst', unit_name + '.cpp')).read()
+    src = re.sub(r'\bdouble\b', real, src)
+    os.makedirs(OUT, exist_ok=True)
+    f = os.path.join(OUT, '%s_purity.cpp' % unit_name)
+    open(f, 'w').write(src)
+    cmd = ['clang++', '-std=c++11', '-I' + NAT.REPO_INC, '-I' + os.path.join(ROOT, 'vp', 'inst'), '-fsyntax-only', '-Xclang', '-ast-dump=json', '-Xclang', '-ast-dump-filter=hep::', f]
+    p = subprocess.run(cmd, stdout=subprocess.PIPE, stderr=subprocess.PIPE, text=True)
+    if p.returncode:
+        return None, ' '.join(cmd), p.stderr[-1500:]
+    dec = json.JSONDecoder()
+    txt = p.stdout
+    i = 0
+    hits = {}
+    skip = ('FunctionDecl', 'CXXMethodDecl', 'ParmVarDecl', 'CXXConstructorDecl', 'TemplateArgument', 'FloatingLiteral', 'BuiltinType')
+
+    def walk(n, fn, line, file):
+        if not isinstance(n, dict):
+            return
+        rb = (n.get('range') or {}).get('begin') or {}
+        for l in (n.get('loc') or {}, rb, rb.get('expansionLoc') or {}, rb.get('spellingLoc') or {}):
+            if 'file' in l:
+                file = l['file']
+            if 'line' in l:
+                line = l['line']
+        k = n.get('kind')
+        if k in ('FunctionDecl', 'CXXMethodDecl', 'CXXConstructorDecl'):
+            fn = n.get('name')
+        ty = n.get('type') or {}
+        for q in (ty.get('qualType', ''), ty.get('desugaredQualType', '')):
+            if re.search(r'\bdouble\b', q.replace('long double', 'LD')) and fn and file and 'hep/mc' in file and k not in skip:
+                hits.setdefault('%s:%s (%s)' % (os.path.basename(file), line, fn), set()).add('%s : %s' % (k, q[:70]))
+        for c in n.get('inner', []) or []:
+            walk(c, fn, line, file)
+    while True:
+        while i < len(txt) and txt[i] in ' \n\r\t':
+            i += 1
+        if i >= len(txt):
+            break
+        if txt[i] != '{':
+            j = txt.find('\n', i)
+            i = j + 1 if j >= 0 else len(txt)
+            continue
+        o, i = dec.raw_decode(txt, i)
+        walk(o, None, None, None)
+    return hits, ' '.join(cmd), ''
+
+
+def run_static_purity(job, tier):
+    """supporting static fact (clang AST, not CBMC): the hep:: functions instantiated with T = long double contain no expression of
+    type double.  The contract proofs are for T = double; this is what lets their conclusions about WHICH operations are performed
+    carry over to the other numeric types."""
+    t0 = time.time()
+    res = dict(job=job['name'], status='error', obligations=[], notes=['static fact from the clang AST of the long double instantiation (not a CBMC obligation)'], cmds=[], secs=0, meta=dict(functions=[], fired={}))
+    worst = 'proved'
+    for u in job['units']:
+        hits, cmd, err = _purity_scan(u)
+        res['cmds'].append(cmd)
+        if hits is None:
+            res['status'] = 'extract-error'
+            res['notes'].append(err)
+            return res
+        st = 'proved' if not hits else 'failed'
+        if hits:
+            worst = 'failed'
+        desc = 'T.numeric_type_purity: no expression of type double inside the hep:: functions of unit %s instantiated with T = long double' % u
+        res['obligations'].append(dict(id='%s.%s' % (job['name'], u), name='T.numeric_type_purity', kind='property', status=st, description=desc, loc='vp/inst/%s.cpp' % u, solver='clang-ast', secs=0,
+                                       real='long double', job=job['name'], trace=None,
+                                       model=dict(native_output=dict(data='\n'.join('%s: %s' % (k, '; '.join(sorted(v)[:2])) for k, v in sorted(hits.items())[:30]), binary=None))))
+    res['status'] = worst
+    res['canary'] = dict(seen=True, failed=True)
+    res['secs'] = time.time() - t0
+    return res
+
+
 def run_job(job, tier='quick', log=print):
     if job.get('kind') == 'native-bounded':
         return run_native_bounded(job, tier)
+    if job.get('kind') == 'static-purity':
+        import native as NAT
+        h = hashlib.sha256()
+        for root in (os.path.join(NAT.REPO_INC, 'hep', 'mc'), os.path.join(ROOT, 'vp', 'inst')):
+            for fn in sorted(os.listdir(root)):
+                if fn.endswith(('.hpp', '.cpp', '.h')):
+                    h.update(fn.encode())
+                    h.update(open(os.path.join(root, fn), 'rb').read())
+        return cached(job, tier, h.digest(), lambda: run_static_purity(job, tier))
     if job.get('kind') == 'lemma':
         src = open(os.path.join(ROOT, job['source']), 'rb').read()
         return cached(job, tier, src, lambda: run_lemma_job(job, tier))
